@@ -34,6 +34,7 @@ import (
 	"verif/harness/api"
 	"verif/harness/env"
 	"verif/harness/h"
+	_ "verif/harness/warm"
 	"verif/harness/keys"
 	"verif/harness/val"
 )
